@@ -9,6 +9,8 @@
 //	dialrace <id> <ms>             DialAsync with a dial timeout whose connect completes (EPOLLOUT, SO_ERROR 0) while DialAsync is
 //	                               still between registering the descriptor and arming the timeout; then the timeout elapses
 //	addx <id> <tcp|unix>           AddConn of a conn that was closed before (Close, then AddConn)
+//	addcr <id> <id2>               conn id is closed inside its open notification; conn id2 gets its descriptor number and is
+//	                               added before the AddConn of id goes on
 //	hupbusy <id> <p1> <p2>         data event, then — with AsyncReadInPoller while the read task is still inside the data
 //	                               callback of p1 — more data, the peer's FIN and the IN|RDHUP event; then the task goes on
 //	addudp <id>                    UDP listener around a virtual descriptor
@@ -87,6 +89,8 @@ type conn struct {
 	leaked  bool          // opened without a close notification (reported): Stop would hang
 	soSet   bool          // the kernel's verdict on the connect (SO_ERROR) is fixed: the first dev decides
 	hold    chan struct{} // the data callback of this conn waits here (hupbusy)
+	addErr  error
+	reuseAs *conn         // addcr: after the Close inside the open notification this new conn takes the descriptor number
 	inData  chan struct{} // … after it said so here
 	soe     int
 }
@@ -355,6 +359,32 @@ func (s *sess) onOpen(nc *nbio.Conn) {
 	if ci.cio {
 		s.mu.Unlock()
 		_ = nc.Close()
+		if r := ci.reuseAs; r != nil {
+			// the kernel hands the number out again at once: a new conn (another accept, another AddConn) gets it and is
+			// added while the first addConn is still between its open notification and its table statement
+			var extra []int
+			for i := 0; i < 256; i++ {
+				nfd, nv := vsys.NewVFD()
+				if nfd == ci.fd {
+					r.fd, r.v = nfd, nv
+					break
+				}
+				extra = append(extra, nfd)
+			}
+			for _, x := range extra {
+				vsys.Forget(x)
+				_ = syscall.Close(x)
+			}
+			if r.v != nil {
+				typ := nbio.ConnTypeTCP
+				r.c = nbio.VerifNewConn(r.fd, typ)
+				s.mu.Lock()
+				s.conns[r.id] = r
+				s.byPtr[r.c] = r
+				s.mu.Unlock()
+				_, r.addErr = s.g.AddConn(r.c)
+			}
+		}
 		s.mu.Lock()
 	}
 }
@@ -862,6 +892,37 @@ func exec(e *lp.Exec) {
 			s.result(e, f[0], errClass(err), ci, 0)
 			e.Count("conns", f[0]+"-"+f[2])
 			key.WriteString("A" + f[0][3:] + ",")
+		case "addcr":
+			// addcr <id> <id2>: conn id is closed inside its open notification and conn id2 takes its descriptor number and
+			// is added before the first addConn goes on
+			id2, _ := strconv.Atoi(f[len(f)-1])
+			if len(f) != 3 || ci != nil || s.conns[id2] != nil || id2 == id {
+				bad()
+				continue
+			}
+			{
+				fd, v := vsys.NewVFD()
+				ci = &conn{id: id, kind: "add", fd: fd, v: v, c: nbio.VerifNewConn(fd, nbio.ConnTypeTCP), cio: true}
+				r := &conn{id: id2, kind: "add"}
+				ci.reuseAs = r
+				s.mu.Lock()
+				s.conns[id] = ci
+				s.byPtr[ci.c] = ci
+				s.mu.Unlock()
+				_, err := s.g.AddConn(ci.c)
+				e.P("> %s", line)
+				s.firstCause(e, ci, false, "nil")
+				if r.c == nil {
+					e.Oracle("c03-fd", "addcr: the descriptor number did not come back")
+				} else if closed, _ := r.c.VerifCloseState(); r.addErr != nil || closed {
+					e.Oracle("c03-close-once", "conn %d: a new conn on a descriptor number that was just released was refused / closed (%s) because the AddConn of the closed conn %d was still running", id2, errClass(r.addErr), id)
+				} else if s.g.VerifConnAt(r.fd) != r.c {
+					e.Oracle("c03-close-once", "conn %d: open and registered, but no longer in the engine's descriptor table — the AddConn of the closed conn %d overwrote / cleared its entry: its events are dropped (no data, no close notification)", id2, id)
+				}
+				s.result(e, "addcr", errClass(err), r, 0)
+				key.WriteString("Acr,")
+				nontrivial = true
+			}
 		case "addudp":
 			if len(f) != 2 || ci != nil {
 				bad()
@@ -1522,6 +1583,13 @@ func gen(g *lp.Gen) {
 			case r < 6:
 				g.P("addc %d %s", id, g.Pick("tcp", "unix"))
 				conns[id] = &ci{kind: "add", typ: "unix", closed: true}
+			case r < 8:
+				id2 := next
+				next++
+				g.P("addcr %d %d", id, id2)
+				conns[id] = &ci{kind: "add", typ: "tcp", closed: true}
+				conns[id2] = &ci{kind: "add", typ: "tcp"}
+				ids = append(ids, id2)
 			case r < 10:
 				g.P("dialx %d", id)
 				conns[id] = &ci{kind: "dial", dialed: true, closed: true}
